@@ -357,7 +357,8 @@ def mutateFrame0 (m : Made) : G (Frame × String × Bool) := do
             let all := r.residuals.map fun x => Int.emod x 1000 - 500
             let sizes := (bs / 2 ^ po - order) :: List.replicate (2 ^ po - 1) (bs / 2 ^ po)
             { r with order := po, parts := (splitBy sizes (all ++ List.replicate (bs + 1) 0)).map fun chunk => Partition.rice (if r.method == 0 then 3 else 17) chunk },
-          "partition-order-any", false && valid)
+          "partition-order-any", !(valid && bs / 2 ^ po > (match (f.subs.getD i default).body with | .fixed o .. => o | .lpc o .. => o | _ => 0))
+            && (match (f.subs.getD i default).body with | .fixed .. => true | .lpc .. => true | _ => false))
   | 12 => do
     -- a residual whose folded value does not fit 32 bits (RFC: residuals are 32-bit, minus the most negative)
     let big ← pick [(2147483648 : Int), 2147483653, -2147483649, 4294967296, -4294967297, 6442450944]
